@@ -5,6 +5,7 @@
 #include <algorithm>
 #include <cstring>
 #include <typeinfo>
+#include <new>
 
 #include <foonathan/memory/config.hpp>
 #include <foonathan/memory/debugging.hpp>
@@ -363,6 +364,8 @@ namespace hs
             op_destroy(int(op.arg(0)));
         else if (k == "dhusk")
             op_destroy_husk(op.arg(0));
+        else if (k == "nh")
+            op_newhandler(op);
         else if (k == "over")
             op_over(op);
         else if (k == "markcap")
@@ -1663,6 +1666,87 @@ namespace hs
         retag(1, 0);
         retag(2, 1);
         shadow_.check_all("C12,C01", "after swap");
+    }
+
+    //=== new_allocator and the program's std::new_handler ===//
+    namespace
+    {
+        struct NewHandlerCase
+        {
+            unsigned calls = 0;
+            int      mode  = 0;
+            bool     stale = false;
+        } g_nh;
+        void nh_handler()
+        {
+            ++g_nh.calls;
+            if (g_nh.calls > 1)
+            {
+                // (only reachable when the caller kept a handler that is not installed any more)
+                g_nh.stale = true;
+                SimHeap::get().set_exhausted(false); // ends the retry loop
+                return;
+            }
+            if (g_nh.mode == 0)
+                std::set_new_handler(nullptr); // has nothing to free: gives up by removing itself
+            else
+                SimHeap::get().set_exhausted(false); // frees its reserve: the retry succeeds
+        }
+    } // namespace
+
+    void Interp::op_newhandler(const Op& op)
+    {
+        // nh obj mode size: operator new has no memory; a std::new_handler either frees some or removes itself
+        auto S = live_obj(op.arg(0));
+        if (!S || S->o->name != "ll.new")
+            return;
+        auto& heap = SimHeap::get();
+        g_nh       = NewHandlerCase();
+        g_nh.mode  = int(op.arg(1)) & 1;
+        Req         r{int(op.arg(3)) % 2 ? MEMBER : TRAITS, false, 1, 8 + std::size_t(op.arg(2)) % 200, 8};
+        std::size_t usable = 0;
+        void*       p      = nullptr;
+        bool        threw = false, lib_oom = false;
+        std::set_new_handler(&nh_handler);
+        heap.begin_op(0);
+        heap.set_exhausted(true);
+        try
+        {
+            p = S->o->allocate(r, usable);
+        }
+        catch (const fm::out_of_memory&)
+        {
+            threw = lib_oom = true;
+        }
+        catch (const std::bad_alloc&)
+        {
+            threw = true;
+        }
+        heap.set_exhausted(false);
+        std::set_new_handler(nullptr);
+        if (p)
+            S->o->deallocate(r, p);
+        heap.end_op();
+        hash_.add(0x9A + g_nh.mode * 2 + (threw ? 1 : 0));
+        stats().hit(g_nh.mode ? "reach.new_handler_freed_memory" : "reach.new_handler_removed_itself");
+        if (g_nh.stale)
+            violate("C03", "new_handler_stale", "new_allocator called a std::new_handler %u times although it had "
+                                                "removed itself during its first call (std::get_new_handler() "
+                                                "must be asked before every retry)",
+                    g_nh.calls);
+        if (g_nh.calls != 1)
+            violate("C03", "new_handler_calls", "operator new failed once; the installed std::new_handler was "
+                                                "called %u times",
+                    g_nh.calls);
+        if (g_nh.mode == 0 && !lib_oom)
+            violate("C03", "failure_absorbed", "no memory and no std::new_handler left: new_allocator %s instead of "
+                                               "throwing out_of_memory",
+                    threw ? "threw another exception" : "returned");
+        if (g_nh.mode == 1 && (threw || !p))
+            violate("C03", "spurious_failure", "the std::new_handler freed memory, the retry must succeed; "
+                                               "new_allocator %s",
+                    threw ? "threw" : "returned null");
+        after_sut_call("allocation with a std::new_handler");
     }
 
     //=== limits ===//
